@@ -412,9 +412,35 @@ pub fn rw_abstract(p: &Program, rng: &mut Rng) -> Option<(Program, Applied)> {
     let c_expr = get(p, &c).clone();
     // inner sites of C: strictly inside, closed, receive the empty annotation, not a callee
     let size = c_expr.size();
+    // Not the body of a `rec`: the function would contain `rec x <parameter>`, a cut point that is not headed
+    // by a schema constructor, whose kind per-module inference cannot resolve once the function is moved
+    // to another module (same rule as the generator's for cut points).
+    let mut rec_bodies: Vec<usize> = Vec::new();
+    {
+        let mut k = 0usize;
+        fn mark(e: &E, k: &mut usize, out: &mut Vec<usize>, under_rec: bool) {
+            let me = *k;
+            *k += 1;
+            if under_rec {
+                out.push(me);
+            }
+            match e {
+                E::Rec { body, .. } => mark(body, k, out, true),
+                E::Paren(i) => mark(i, k, out, under_rec),
+                E::Ann { e: i, .. } => mark(i, k, out, under_rec),
+                other => {
+                    for c in other.children() {
+                        mark(c, k, out, false);
+                    }
+                }
+            }
+        }
+        mark(root_expr(p, r), &mut k, &mut rec_bodies, false);
+    }
     let inner: Vec<&Site> = all
         .iter()
         .filter(|s| s.idx > c.idx && s.idx < c.idx + size && s.closed && s.empty_ann && !s.callee)
+        .filter(|s| !rec_bodies.contains(&s.idx))
         .collect();
     if inner.is_empty() {
         return None;
